@@ -12,7 +12,7 @@ RULE = ("random rulesets (ruleset delay in {default 15,0,1,2,5}, per-action post
         "async pauses and STOPs that spend virtual time inside run(); tick steps drawn from {0,1ns,1s-1ns,1s,1s+1ns,2s,3s,5s,15s} so "
         "ticks land exactly at, 1ns before and 1ns after t+d; per ruleset instance the oracle recomputes pause_until = STOP time + "
         "(action's own delay if it has one else the ruleset's) and requires: no action in [t,t+d), a chain starts at the first tick "
-        ">= t+d on which a group fires, detectors/preruns keep running, other rulesets unaffected. "
+        ">= t+d on which a group fires, detectors/preruns keep running, other rulesets unaffected; plus the same window through the five real kill plugins in dry mode (own and ruleset delays), where the pause is set by the plugin via getInvokingRuleset(). "
         "non-trivial = >=1 STOP with d>0 followed by >=1 tick blocked by the pause and >=1 later chain start; distinct by config+script+steps hash")
 ASSUMPTIONS = c02.ASSUMPTIONS
 OWN = {"C05"}
@@ -41,11 +41,102 @@ def cases(seed, tier):
         yield core.Case(cid, [c02.mk_scn(cid, {"rulesets": rulesets}, scripts, ticks)], {"rulesets": nrs, "ticks": nticks})
 
 
+def real_cases(seed, n):
+    """the same clause through the real kill plugins (dry): they call pause_actions() via getInvokingRuleset()"""
+    from vlib import killgen as KG
+    rng = random.Random(seed * 1000003 + 55)
+    for i in range(n):
+        plugin = rng.choice(KG.PLUGINS)
+        cgs, info, pids = KG.gen_tree(rng, depth=1, fan=3, pidcounts=(1, 2), unpop_p=0.0, pref_p=0.0, oomgroup_p=0.0)
+        args = {"cgroup": "wl/*", "dry": "true"}
+        if plugin == "kill_by_pressure":
+            args["resource"] = "memory"
+        if plugin == "kill_by_swap_usage":
+            args["threshold"] = "0"
+            for r in info:
+                cgs[r]["files"]["memory.swap.current"] = "4096\n"
+        own = rng.choice([None, None, 0, 1, 2, 4])
+        if own is not None:
+            args["post_action_delay"] = str(own)
+        rdelay = rng.choice([None, "0", "1", "3", "6"])
+        extra = {} if rdelay is None else {"post_action_delay": rdelay}
+        cfg = KG.kill_config(plugin, args, extra)
+        if rdelay is None:
+            cfg["rulesets"][0].pop("post_action_delay", None)
+        nticks = rng.randint(10, 16)
+        ticks = []
+        for t in range(nticks):
+            ops = []
+            if t > 0 and plugin in ("kill_by_pg_scan", "kill_by_io_cost"):
+                for r in info:
+                    ops.append({"op": "write", "cg": r, "file": "memory.stat", "text": W.memstat({"pgscan": 1000 * (t + 1) + len(r)})})
+                    ops.append({"op": "write", "cg": r, "file": "io.stat", "text": KG.iostat_text(rng, t + 1)})
+            ticks.append({"step_ns": rng.choice(STEPS), "ops": ops})
+        cid = "C05r-%d-%d" % (seed, i)
+        scn = KG.base_scn(cid, cgs, cfg, ticks=ticks)
+        yield core.Case(cid, [scn], {"real": True, "plugin": plugin, "own": own, "ruleset": 15 if rdelay is None else int(rdelay)})
+
+
+_cases_scripted = cases
+
+
+def cases(seed, tier):
+    yield from _cases_scripted(seed, tier)
+    yield from real_cases(seed, 120 if tier == "quick" else 2000)
+
+
+def judge_real(case, results):
+    from oracles import killtrace as KT
+    from checks.c04 import KMSG
+    v = core.Verdict()
+    res, scn = results[0], case.scns[0]
+    cr = core.classify_crash(res) if res.crashed else core.exception_outcome(res)
+    if cr:
+        v.bad("crash:" + cr[0], cr[1], cr[2])
+        return v
+    m = case.meta
+    d = (m["own"] if m["own"] is not None else m["ruleset"]) * 10**9
+    invs = KT.parse(res.events)
+    times = {}
+    for e in res.events:
+        if e.get("ev") == "tick":
+            times[e["i"]] = e["t"]
+    pause_until = None
+    blocked = starts = 0
+    for inv in invs:
+        now = times.get(inv.tick)
+        started = inv.pre is not None
+        if pause_until is not None:
+            if now < pause_until and started:
+                v.bad("action-in-pause", "real-plugin", "%s (own delay %s, ruleset %s): chain started at tick %d t=%d, pause lasts until %d" % (m["plugin"], m["own"], m["ruleset"], inv.tick, now, pause_until))
+                return v
+            if now >= pause_until and not started and not (inv.tick > 0 and invs[inv.tick - 1].ret == "A"):
+                v.bad("chain-must-start", "real-plugin", "%s (own delay %s, ruleset %s): detectors fire, pause ended at %d, but no chain at tick %d t=%d" % (m["plugin"], m["own"], m["ruleset"], pause_until, inv.tick, now))
+                return v
+            if now < pause_until:
+                blocked += 1
+        if started:
+            starts += 1
+        if any(KMSG.match(l) and "(dry)" in l for l in inv.kmsg):
+            pause_until = now + d
+    v.count("real_plugin_cases")
+    v.count("pause_blocked", blocked)
+    v.count("chain_starts", starts)
+    v.nontrivial = blocked > 0 and starts > 1
+    v.sig = core.scn_hash(scn)
+    return v
+
+
 def judge(case, results):
+    if case.meta.get("real"):
+        return judge_real(case, results)
     v = c02.judge(case, results, own=OWN)
     s = v.stats
     v.nontrivial = s.get("stops", 0) > 0 and s.get("pause_blocked", 0) > 0 and s.get("chain_starts", 0) > 1
     return v
 
 
-sample = c02.sample
+def sample(case, v):
+    if case.meta.get("real"):
+        return {"case": case.id, "real_plugin": case.meta, "observed": v.stats}
+    return c02.sample(case, v)
